@@ -898,3 +898,12 @@ def method_reference_polarity(fi: "FuncInfo", names, classify):
         v = out.get(nm, {"?"})
         res[nm] = next(iter(v)) if len(v) == 1 else "?"
     return res
+
+
+def parent_map(root: ast.AST) -> Dict[ast.AST, ast.AST]:
+    """child node -> parent node for the subtree under ``root``."""
+    out: Dict[ast.AST, ast.AST] = {}
+    for p in ast.walk(root):
+        for c in ast.iter_child_nodes(p):
+            out[c] = p
+    return out
